@@ -8,6 +8,9 @@ NA_ALL = {
  'C15': 'Circuit shape / pinned Groth16 keys: needs Groth16 proving and pairing evaluation on concrete keys (whole-program runs through ark-groth16, no symbolic content) and a dataflow statement about arkworks\' synthesiser; no solver verdict over the real code is within reach (DESIGN §4).',
 }
 CHECKS = {
+ 'C08': dict(level='proof', technique='path enumeration of the MIR (POLY domain) for ==, the identity predicates and Hash against their specified meaning; z3 identities / certificates for the hashed encodings',
+      text='For both builds every path of PartialEq::eq is shown to answer exactly X1*Y2 == Y1*X2 (and true between a point, its rescaling and its coset shift); is_identity, Zero::is_zero, AffineRepr::is_zero, == IDENTITY and == default() answer exactly X == 0; Hash feeds the hasher only the encoding bytes, shown identical for the rescaled, plain and coset-shifted representative.',
+      note='Trusted: arkworks inner-point behaviour, contract S + scaling lemma, MIR semantics; Decaf injectivity for the "iff same encoding" direction.', ref='§3 C08'),
  'C17': dict(level='proof', technique='constant bodies evaluated on the MIR by the interpreter; each defining equation is a closed SMT formula (modular powers as squaring chains) decided by z3',
       text='Each published constant (inherent, wrapper-level for both wrappers, trait-associated, curve configuration, Lazy statics) is obtained by evaluating its real MIR body, and its defining equation (recomputed from the modulus / curve parameters alone) is discharged by z3 as a ground formula; both builds.',
       note='Trusted: the primes and documented small generators from the specification; MIR semantics as modelled; r prime.', ref='§3 C17'),
